@@ -110,6 +110,52 @@ func ruleCoverageSource(p *Prog, r *Report) {
 			r.Check(good, rule, key, p.IPos(cs[0]), "the coverage is computed from font.ProcessCmap(tables.ParseCmap(raw), page), the constructor NewFont uses for Font.Cmap")
 		}
 	}
+	// the font page handed to ProcessCmap by the scanner is read from OS/2 when — and only when — the table parsed
+	{
+		f := p.Func("fontscan", "", "newFootprintFromLoader")
+		parseOs2 := p.Func("font/opentype/tables", "", "ParseOs2")
+		fontPage := p.Func("font/opentype/tables", "Os2", "FontPage")
+		key := "fontscan.newFootprintFromLoader/fontPage"
+		r.Instance(rule, key)
+		ok, why := false, "no call of (Os2).FontPage whose result reaches ProcessCmap"
+		for _, pc := range callsOf(f, process) {
+			page := pc.Common().Args[1]
+			for _, fc := range callsOf(f, fontPage) {
+				if !derivesFrom(page, func(v ssa.Value) bool { return v == ssa.Value(fc) }, 0) {
+					continue
+				}
+				// the call is reachable only from the edge on which the error of ParseOs2 is nil
+				ok, why = false, "the font page is read on a path where ParseOs2 returned an error (the table it is read from is the zero value)"
+				for _, b := range f.Blocks {
+					iff := ifOf(b)
+					if iff == nil {
+						continue
+					}
+					bo, isBo := iff.Cond.(*ssa.BinOp)
+					if !isBo || bo.Op != token.EQL && bo.Op != token.NEQ {
+						continue
+					}
+					isErr := func(v ssa.Value) bool {
+						ex, isEx := v.(*ssa.Extract)
+						if !isEx {
+							return false
+						}
+						c, isC := ex.Tuple.(*ssa.Call)
+						return isC && c.Common().StaticCallee() == parseOs2 && ex.Index == 2
+					}
+					isNil := func(v ssa.Value) bool { c, isC := v.(*ssa.Const); return isC && c.Value == nil }
+					if !(isErr(bo.X) && isNil(bo.Y) || isErr(bo.Y) && isNil(bo.X)) {
+						continue
+					}
+					// the edge on which err != nil must not reach the FontPage call
+					if guardedBy(p, f, fc, guard{iff, bo.Op == token.NEQ}) {
+						ok, why = true, ""
+					}
+				}
+			}
+		}
+		r.Check(ok, rule, key, p.Pos(f.Pos()), "the font page given to ProcessCmap by the scanner is (Os2).FontPage() of a successfully parsed OS/2 table, as in NewFont"+pref(why))
+	}
 	// NewFont builds Font.Cmap with the same constructor
 	nf := p.Func("font", "", "NewFont")
 	key := "font.NewFont/Cmap"
@@ -133,14 +179,14 @@ func ruleCoverageSource(p *Prog, r *Report) {
 func runC11(p *Prog, r *Report) {
 	r.Explain = append(r.Explain,
 		"R-SIB: every type of package font that implements Cmap by embedding a Cmap and declares its own Lookup also declares Iter (and RuneRanges is not inherited from the embedded value) — otherwise enumeration and point lookup are different functions by construction.",
-		"R-COV: both coverage builders of fontscan are fed with the cmap the face uses: Font.Cmap itself, respectively the result of font.ProcessCmap(tables.ParseCmap(raw), page), the constructor NewFont stores into Font.Cmap.",
+		"R-COV: both coverage builders of fontscan are fed with the cmap the face uses: Font.Cmap itself, respectively the result of font.ProcessCmap(tables.ParseCmap(raw), page), the constructor NewFont stores into Font.Cmap; the font page argument of the scanner is (Os2).FontPage() read on the edge where ParseOs2 succeeded.",
 		"R-TAB: ScriptRanges sorted and disjoint (precondition of the merge in scriptsFromRanges).")
 	ruleSibling(p, r, "font", "Cmap", "Lookup", []string{"Iter"}, 3)
 	ruleCoverageSource(p, r)
 	le := newLitEval(p)
 	ruleSortedRanges(p, r, le, "language", "ScriptRanges", "Start", "End", 900)
 	r.Assumptions = append(r.Assumptions, "the per-format Lookup/Iter implementations (cmap0/4/6/10/12/13) are NOT compared with each other: zero-glyph entries and delta wrap-around inside cmap4 are runtime arithmetic")
-	r.NotDecided = append(r.NotDecided, "agreement of Lookup and Iter inside each cmap format", "RuneSet set algebra and addRangeToPage bit arithmetic", "that the OS/2 font page handed to ProcessCmap is the same in NewFont and in the scanner")
+	r.NotDecided = append(r.NotDecided, "agreement of Lookup and Iter inside each cmap format", "RuneSet set algebra and addRangeToPage bit arithmetic")
 }
 
 func controlsC11(cp *Prog, r *Report) {
